@@ -157,6 +157,29 @@ func runKeepalive(c *Ctx) {
 					return true
 				})
 			}
+			// ... and not raised again: any other assignment (a floor, so that the ticker gets a positive period) is a constant of at most a millisecond (round 8)
+			for g := f; g != nil; g = g.Parent {
+				gi := g.Info()
+				nf := 0
+				InspectNoLits(g.Body, func(nd ast.Node) bool {
+					as, ok := nd.(*ast.AssignStmt)
+					if !ok || as.Tok != token.ASSIGN || len(as.Lhs) != 1 || len(as.Rhs) != 1 || ObjOf(gi, as.Lhs[0]) != pv || idleFraction(gi, as.Rhs[0]) {
+						return true
+					}
+					nf++
+					tv, ok := gi.Types[as.Rhs[0]]
+					var ns int64 = -1
+					if ok && tv.Value != nil {
+						if v, exact := constant.Int64Val(constant.ToInt(tv.Value)); exact {
+							ns = v
+						}
+					}
+					c.Check(ns >= 0 && ns <= 1000000, fmt.Sprintf("%s/floor#%d", key, nf), as.Pos(), "the floor of the ping period is at most a millisecond",
+						"the keep-alive ping period is raised to "+types.ExprString(as.Rhs[0])+" after it was lowered to a fraction of --ws-idle-timeout: for every idle timeout up to twice that value the first ping is due when the read deadline has already fired - "+
+							"a host that waits for receivers is dropped, the clean-up deletes its session and the join code it printed is dead")
+					return true
+				})
+			}
 			c.Check(lowered, key, call.Pos(), "the ping period is lowered to a fraction of the idle timeout (minimum idiom)",
 				"the keep-alive ping period "+pv.Name()+" is never lowered to a fraction of --ws-idle-timeout: with an idle timeout below the fixed period every peer that only waits is disconnected (the client sends no pings of its own), and a waiting host's session is deleted with its connection")
 			return true
